@@ -20,6 +20,11 @@ import (
 	"rcproxy/core/codec"
 )
 
+const (
+	maxBulkLen      = 512 * 1024 * 1024 // redis proto-max-bulk-len
+	maxMultibulkLen = 1024 * 1024       // largest argument count redis accepts from a client
+)
+
 func parseLen(p []byte) (int, error) {
 	if len(p) < 1 {
 		return -1, errors.New("malformed length")
@@ -29,6 +34,12 @@ func parseLen(p []byte) (int, error) {
 		return -1, nil
 	}
 
+	// like redis, only the canonical decimal form is a length ("03" is a protocol error),
+	// and no length exceeds the largest bulk string (512MB)
+	if p[0] == '0' && len(p) > 1 {
+		return -1, codec.ErrInvalidResp
+	}
+
 	var n int
 	for _, b := range p {
 		n *= 10
@@ -36,6 +47,9 @@ func parseLen(p []byte) (int, error) {
 			return -1, codec.ErrInvalidResp
 		}
 		n += int(b - '0')
+		if n > maxBulkLen {
+			return -1, codec.ErrInvalidResp
+		}
 	}
 
 	return n, nil
